@@ -16,7 +16,11 @@ use crate::errors::{Error, Result};
 use crate::framing::{FrameMode, MessageDeframer, MessageFramer};
 use std::time::Duration;
 use tokio::io::AsyncWriteExt;
+#[cfg(edp_verif)]
+use crate::verif::{OwnedReadHalf, OwnedWriteHalf, TcpStream};
+#[cfg(not(edp_verif))]
 use tokio::net::TcpStream;
+#[cfg(not(edp_verif))]
 use tokio::net::tcp::{OwnedReadHalf, OwnedWriteHalf};
 
 pub struct FramedTransport {
